@@ -1,59 +1,567 @@
-/- C01 property theorems (placeholder set until the full per-key stream theorems are merged). -/
-import FurikoModel.Model.Cron
-import FurikoModel.Proofs.HeapSpec
+/-
+C01 — "While the schedule is unchanged, a run is requested for time t iff t matches and lies inside
+the window; every such t exactly once, in increasing order, never before t has arrived.  If the
+controller falls behind by more than the missed-schedule limit it requests only the earliest overdue
+times up to that limit and resumes from the present."
 
-namespace Furiko.Props.C01
+Every `Pop` of a tick uses the tick's reference time `now`; `floorSec now` is the tick's whole
+second.  Vocabulary (Proofs/CronLemmas.lean, CronDue.lean, CronTick.lean):
+* `jc.M t`  : `t` matches one of the JobConfig's cron expressions (`∃ l ∈ exprs, t ∈ l`);
+* `jc.M' t` : `jc.M t`, `notBefore ≤ t` when set and `t ≤ notAfter` when set;
+* `jc.nextAfter s = getNext jc.nxt notBefore notAfter (s*10^9)` (`getNext_sec_eq_nextAfter`);
+* `dueList jc.nextAfter nowS e` : iterate `nextAfter` from the entry `e` while `≤ nowS`;
+* `outk fired k = (fired.filter (·.1 = k)).map (·.2)` : the requests for key `k`, in order.
+-/
+import FurikoModel.Proofs.CronKey
+import FurikoModel.Proofs.CronTerm
+import FurikoModel.Proofs.CronRunWork
+import FurikoModel.Proofs.CronExamples
+
+namespace Furiko.Cron.C01
 open Furiko Furiko.Cron
 
-/-- `Schedule.Pop` never hands out an entry whose time has not arrived. -/
-theorem pop_never_early (pq pq' : Heap.PQ) (now : Int) (k : String) (t : Int)
-    (h : schedPop pq now = some (pq', k, t)) : t * 1000000000 ≤ now := by
-  unfold schedPop at h
-  split at h
-  · simp at h
-  · split at h
-    · simp at h
-    · split at h
-      · simp at h
-      · rename_i item _ _ _ _ _
-        simp only [Option.some.injEq, Prod.mk.injEq] at h
-        obtain ⟨_, _, rfl⟩ := h
-        omega
+/-! ## 1. the `Next` contract -/
 
-example : schedPop (Heap.new [("a", 5)]) 5000000000 ≠ none := by decide
+theorem nextInList_spec {l : List Int} (hl : SortedStrict l) (s : Int) :
+    (∀ m, nextInList l s = some m → s < m ∧ m ∈ l ∧ ∀ u ∈ l, s < u → m ≤ u) ∧
+    (nextInList l s = none → ∀ u ∈ l, u ≤ s) :=
+  Cron.nextInList_spec hl s
 
-/-- the heap wrapper refines a finite map: `Peek` yields an entry of minimal priority -/
-theorem heap_peek_min {pq : Heap.PQ} (h : Heap.Inv pq) {it : Heap.Item} (hp : Heap.peek pq = some it) :
-    Heap.search pq it.name = some it.prio ∧ ∀ k p, Heap.search pq k = some p → it.prio ≤ p :=
-  Heap.peek_min h hp
+example : SortedStrict [10, 20, 30] := by unfold SortedStrict; decide
 
-/-- `Pop` removes exactly the entry `Peek` showed and keeps the invariant -/
-theorem heap_pop_spec {pq : Heap.PQ} (h : Heap.Inv pq) {it : Heap.Item} (hp : Heap.peek pq = some it) :
-    ∃ pq' it', Heap.pop pq = some (pq', it') ∧ it'.name = it.name ∧ it'.prio = it.prio ∧ Heap.Inv pq' ∧
-      ∀ k, Heap.search pq' k = if k = it.name then none else Heap.search pq k :=
-  Heap.pop_spec h hp
+theorem nextInList_NextSpec {l : List Int} (hl : SortedStrict l) :
+    NextSpec (fun t => t ∈ l) (nextInList l) :=
+  Cron.nextInList_NextSpec hl
 
-theorem heap_push_spec {pq : Heap.PQ} (h : Heap.Inv pq) (n : String) (p : Int)
-    (hfresh : Heap.search pq n = none) :
-    Heap.Inv (Heap.push pq n p) ∧
-      ∀ k, Heap.search (Heap.push pq n p) k = if k = n then some p else Heap.search pq k :=
-  ⟨Heap.inv_push h n p hfresh, Heap.search_push h n p hfresh⟩
+/-- the multiExpression fold meets the contract for the union of its members' match sets -/
+theorem multiNext_spec {ps : List ((Int → Prop) × (Int → Option Int))}
+    (h : ∀ p ∈ ps, NextSpec p.1 p.2) :
+    NextSpec (fun t => ∃ p ∈ ps, p.1 t) (multiNext (ps.map Prod.snd)) :=
+  Cron.multiNext_spec h
 
-theorem heap_update_spec {pq : Heap.PQ} (h : Heap.Inv pq) (n : String) (p : Int)
-    (hk : Heap.search pq n ≠ none) :
-    Heap.Inv (Heap.update pq n p).1 ∧
-      ∀ k, Heap.search (Heap.update pq n p).1 k = if k = n then some p else Heap.search pq k :=
-  ⟨Heap.inv_update h n p, Heap.search_update h n p hk⟩
+example : ∀ p ∈ [((fun t => t ∈ [10, 20] : Int → Prop), nextInList [10, 20]),
+                 ((fun t => t ∈ [15] : Int → Prop), nextInList [15])], NextSpec p.1 p.2 := by
+  intro p hp
+  rcases List.mem_cons.1 hp with rfl | hp
+  · exact Cron.nextInList_NextSpec (l := [10, 20]) (by unfold SortedStrict; decide)
+  · rcases List.mem_singleton.1 hp with rfl
+    exact Cron.nextInList_NextSpec (l := [15]) (by unfold SortedStrict; decide)
 
-theorem heap_delete_spec {pq : Heap.PQ} (h : Heap.Inv pq) (n : String) :
-    Heap.Inv (Heap.delete pq n).1 ∧
-      ∀ k, Heap.search (Heap.delete pq n).1 k = if k = n then none else Heap.search pq k :=
-  ⟨Heap.inv_delete h n, Heap.search_delete h n⟩
+/-- the model's `JC.nxt` (multiExpression over the per-expression oracles) meets the contract
+for `jc.M` -/
+theorem jc_nxt_spec {jc : JC} (h : ∀ l ∈ jc.sched.exprs, SortedStrict l) :
+    NextSpec (fun t => ∃ l ∈ jc.sched.exprs, t ∈ l) jc.nxt :=
+  JC.nxt_spec h
 
-theorem heap_new_spec (items : List (String × Int)) (hnd : (items.map Prod.fst).Nodup) :
-    Heap.Inv (Heap.new items) ∧ ∀ k, Heap.search (Heap.new items) k = Heap.lookupItems items k :=
-  ⟨Heap.inv_new items hnd, Heap.search_new items hnd⟩
+example : ∀ l ∈ Ex.jcA.sched.exprs, SortedStrict l := Ex.jcA_sorted
 
-example : Heap.Inv (Heap.new [("a", 5), ("b", 3)]) := Heap.inv_new _ (by decide)
+/-- `getNext` returns the least time after `floorSec fromNs` that matches and lies inside the
+`[notBefore, notAfter]` window, or `none` if there is none -/
+theorem getNext_spec {M : Int → Prop} {nxt : Int → Option Int} (h : NextSpec M nxt)
+    (nbf naf : Option Int) (fromNs : Int) :
+    NextAt (fun t => M t ∧ (∀ n, nbf = some n → n ≤ t) ∧ ∀ n, naf = some n → t ≤ n)
+      (floorSec fromNs) (getNext nxt nbf naf fromNs) :=
+  Cron.getNext_spec h nbf naf fromNs
 
-end Furiko.Props.C01
+/-- every entry a `Bump` puts into the heap matches and lies inside the window -/
+theorem bump_entry_in_window {jc : JC} (h : ∀ l ∈ jc.sched.exprs, SortedStrict l) (fromNs e : Int)
+    (he : getNext jc.nxt jc.sched.notBefore jc.sched.notAfter fromNs = some e) :
+    jc.M' e ∧ fromNs < e * 1000000000 :=
+  ⟨((Cron.getNext_spec (JC.nxt_spec h) _ _ fromNs).1 e he).2.1,
+    getNext_after (JC.nxt_spec h) _ _ _ _ he⟩
+
+/-- non-vacuity: `Ex.jcW` (window [12, 35]); a Bump from 5 s yields 15, not the match 10 -/
+example : (∀ l ∈ Ex.jcW.sched.exprs, SortedStrict l) ∧
+    getNext Ex.jcW.nxt Ex.jcW.sched.notBefore Ex.jcW.sched.notAfter 5000000000 = some 15 :=
+  ⟨Ex.jcA_sorted, by decide⟩
+
+/-! ## 2. the per-key tick theorem -/
+
+/-- One tick, one well-formed key `k` (lister entry `jc` enabled and parsing, heap entry `e`).
+`L := dueList jc.nextAfter nowS e` is strictly increasing and consists exactly of `e` (if
+`e ≤ nowS`) and the `M'`-times in `(e, nowS]`.  The requests for `k` are the first `cap`
+elements of `L`; the new entry is `Next(last fired)` if the cap was not exceeded,
+`Next(now)` if it was, and unchanged if nothing was due. -/
+theorem work_key_stream {w : Worker} {now cap : Int} {flushLimit fuel : Nat}
+    (hInv : Heap.Inv w.heap) (hL : ListerOK w.lister) (hchan : w.chan = [])
+    (hdone : (work w now cap flushLimit fuel).2.2 = true)
+    {k : String} {jc : JC} (hlk : lookup w.lister k = some jc)
+    (hen : jc.sched.enabled = true) (hpe : jc.sched.parseErr = false)
+    {e : Int} (he : Heap.search w.heap k = some e) :
+    let nowS := floorSec now
+    let w' := (work w now cap flushLimit fuel).1
+    let fired := (work w now cap flushLimit fuel).2.1
+    let L := dueList jc.nextAfter nowS e
+    SortedStrict L ∧
+    (∀ m, m ∈ L ↔ e ≤ m ∧ m ≤ nowS ∧ (m = e ∨ jc.M' m)) ∧
+    (fired.filter (fun p => p.1 = k)).map (fun p => p.2) = L.take cap.toNat ∧
+    (L = [] → Heap.search w'.heap k = some e) ∧
+    (∀ lf, L.getLast? = some lf → L.length ≤ cap.toNat →
+      Heap.search w'.heap k = getNext jc.nxt jc.sched.notBefore jc.sched.notAfter (lf * 1000000000)) ∧
+    (cap.toNat < L.length → Heap.search w'.heap k = getNext jc.nxt jc.sched.notBefore jc.sched.notAfter now) ∧
+    Heap.Inv w'.heap := by
+  intro nowS w' fired L
+  have hsp := JC.nextAfter_spec (lookup_ok hL hlk).2
+  have hd := dueList_spec hsp nowS e
+  obtain ⟨h1, h2, h3⟩ := work_key_stream_lemma flushLimit fuel hInv hL hchan hdone hlk ⟨hen, hpe⟩ he
+  refine ⟨hd.1, hd.2, h1, fun hnil => ?_, fun lf hlf hle => ?_,
+    fun hlt => (getNext_eq_nextAfter jc now).symm ▸ h3 hlt,
+    (work_keywise flushLimit fuel hInv hL hchan (fun _ _ => True) (fun _ _ _ _ _ _ => trivial)
+      (fun _ => trivial)).1⟩
+  · have := h2 (by show L.length ≤ _; rw [hnil]; exact Nat.zero_le _)
+    rw [this]; show (match L.getLast? with | none => some e | some lf => jc.nextAfter lf) = _
+    rw [hnil]; rfl
+  · have := h2 hle
+    rw [this, getNext_sec_eq_nextAfter]
+    show (match L.getLast? with | none => some e | some lf => jc.nextAfter lf) = _
+    rw [hlf]
+
+/-- non-vacuity: `Ex.w0` (entry 10, matches 10,15,20,30,40, tick at 25.5 s, cap 5, fuel 10) -/
+example : Heap.Inv Ex.w0.heap ∧ ListerOK Ex.w0.lister ∧ Ex.w0.chan = [] ∧
+    (work Ex.w0 25500000000 5 1000 10).2.2 = true ∧
+    lookup Ex.w0.lister "a" = some Ex.jcA ∧ Ex.jcA.sched.enabled = true ∧
+    Ex.jcA.sched.parseErr = false ∧ Heap.search Ex.w0.heap "a" = some 10 ∧
+    (work Ex.w0 25500000000 5 1000 10).2.1
+      = [("a", 10), ("a", 15), ("a", 20)] :=
+  ⟨Ex.w0_inv, Ex.w0_lister, rfl, by decide, by simp [lookup, Ex.w0], rfl, rfl, by decide,
+    by decide⟩
+
+/-- In every case where something was due, the new entry is `Next(now)`: the least `M'`-time
+strictly after the tick's second. -/
+theorem work_key_entry_after_tick {w : Worker} {now cap : Int} {flushLimit fuel : Nat}
+    (hInv : Heap.Inv w.heap) (hL : ListerOK w.lister) (hchan : w.chan = [])
+    (hdone : (work w now cap flushLimit fuel).2.2 = true)
+    {k : String} {jc : JC} (hlk : lookup w.lister k = some jc)
+    (hen : jc.sched.enabled = true) (hpe : jc.sched.parseErr = false)
+    {e : Int} (he : Heap.search w.heap k = some e) (hdue : e ≤ floorSec now) :
+    Heap.search (work w now cap flushLimit fuel).1.heap k
+      = getNext jc.nxt jc.sched.notBefore jc.sched.notAfter now ∧
+    NextAt jc.M' (floorSec now) (getNext jc.nxt jc.sched.notBefore jc.sched.notAfter now) := by
+  have hs := (lookup_ok hL hlk).2
+  have hsp := JC.nextAfter_spec hs
+  rw [getNext_eq_nextAfter]
+  refine ⟨?_, hsp (floorSec now)⟩
+  obtain ⟨_, h2, h3⟩ := work_key_stream_lemma flushLimit fuel hInv hL hchan hdone hlk ⟨hen, hpe⟩ he
+  by_cases hle : (dueList jc.nextAfter (floorSec now) e).length ≤ cap.toNat
+  · rw [h2 hle]
+    cases hl : (dueList jc.nextAfter (floorSec now) e).getLast? with
+    | none =>
+      have := List.getLast?_eq_none_iff.1 hl
+      rw [dueList_of_le hsp hdue] at this; cases this
+    | some lf => exact nextAfter_last_eq_now hs _ _ _ hl
+  · exact h3 (by omega)
+
+/-- keys whose lister entry is missing are dropped from the heap without firing (once due) -/
+theorem work_key_missing {w : Worker} {now cap : Int} {flushLimit fuel : Nat}
+    (hInv : Heap.Inv w.heap) (hL : ListerOK w.lister) (hchan : w.chan = [])
+    (hdone : (work w now cap flushLimit fuel).2.2 = true)
+    {k : String} (hlk : lookup w.lister k = none) {e : Int}
+    (he : Heap.search w.heap k = some e) :
+    ((work w now cap flushLimit fuel).2.1.filter (fun p => p.1 = k)).map
+      (fun p => p.2) = [] ∧
+    Heap.search (work w now cap flushLimit fuel).1.heap k
+      = if e ≤ floorSec now then none else some e :=
+  Cron.work_key_missing flushLimit fuel hInv hL hchan hdone hlk he
+
+example : let w : Worker := { Ex.w0 with lister := [] }
+    Heap.Inv w.heap ∧ ListerOK w.lister ∧ w.chan = [] ∧
+    (work w 25500000000 5 1000 10).2.2 = true ∧
+    lookup w.lister "a" = none ∧ Heap.search w.heap "a" = some 10 :=
+  ⟨Ex.w0_inv, ⟨fun _ h => (by cases h), List.Pairwise.nil⟩, rfl, by decide, rfl, by decide⟩
+
+/-- keys not in the heap fire nothing and stay out of the heap -/
+theorem work_key_absent {w : Worker} {now cap : Int} {flushLimit fuel : Nat}
+    (hInv : Heap.Inv w.heap) (hL : ListerOK w.lister) (hchan : w.chan = [])
+    {k : String} (he : Heap.search w.heap k = none) :
+    ((work w now cap flushLimit fuel).2.1.filter (fun p => p.1 = k)).map
+      (fun p => p.2) = [] ∧
+    Heap.search (work w now cap flushLimit fuel).1.heap k = none :=
+  Cron.work_key_absent flushLimit fuel hInv hL hchan he
+
+example : Heap.Inv Ex.w0.heap ∧ ListerOK Ex.w0.lister ∧ Ex.w0.chan = [] ∧
+    Heap.search Ex.w0.heap "b" = none :=
+  ⟨Ex.w0_inv, Ex.w0_lister, rfl, by decide⟩
+
+/-- keys whose lister entry is disabled or unparsable: the popped time is still requested once
+(cap permitting) and the key leaves the heap.  (Model behaviour worth noting: `syncOne` does
+not re-check `enabled`.) -/
+theorem work_key_inactive {w : Worker} {now cap : Int} {flushLimit fuel : Nat}
+    (hInv : Heap.Inv w.heap) (hL : ListerOK w.lister) (hchan : w.chan = [])
+    (hdone : (work w now cap flushLimit fuel).2.2 = true)
+    {k : String} {jc : JC} (hlk : lookup w.lister k = some jc)
+    (hact : ¬ (jc.sched.enabled = true ∧ jc.sched.parseErr = false)) {e : Int}
+    (he : Heap.search w.heap k = some e) :
+    ((work w now cap flushLimit fuel).2.1.filter (fun p => p.1 = k)).map
+      (fun p => p.2) = (if e ≤ floorSec now ∧ 0 < cap then [e] else []) ∧
+    Heap.search (work w now cap flushLimit fuel).1.heap k
+      = if e ≤ floorSec now then none else some e :=
+  Cron.work_key_inactive flushLimit fuel hInv hL hchan hdone hlk hact he
+
+/-! ## 4. corollaries -/
+
+/-- nothing is requested before its time has arrived (any key, any fuel) -/
+theorem fired_never_early {w : Worker} {now cap : Int} {flushLimit fuel : Nat}
+    (hInv : Heap.Inv w.heap) (hL : ListerOK w.lister) (hchan : w.chan = []) :
+    ∀ k t, (k, t) ∈ (work w now cap flushLimit fuel).2.1 →
+      t * 1000000000 ≤ now := by
+  intro k t h
+  have := work_out_arrived (now := now) (cap := cap) flushLimit fuel hInv hL hchan k t
+    (mem_outk.2 h)
+  exact (le_floorSec_iff _ _).1 this
+
+/-- every request for a well-formed key is the key's entry or a matching time in the window -/
+theorem fired_on_schedule {w : Worker} {now cap : Int} {flushLimit fuel : Nat}
+    (hInv : Heap.Inv w.heap) (hL : ListerOK w.lister) (hchan : w.chan = [])
+    (hdone : (work w now cap flushLimit fuel).2.2 = true)
+    {k : String} {jc : JC} (hlk : lookup w.lister k = some jc)
+    (hen : jc.sched.enabled = true) (hpe : jc.sched.parseErr = false)
+    {e : Int} (he : Heap.search w.heap k = some e) :
+    ∀ t, (k, t) ∈ (work w now cap flushLimit fuel).2.1 →
+      e ≤ t ∧ (t = e ∨ jc.M' t) := by
+  intro t ht
+  obtain ⟨_, hmem, hout, _⟩ := work_key_stream hInv hL hchan hdone hlk hen hpe he
+  have h1 : t ∈ (dueList jc.nextAfter (floorSec now) e).take cap.toNat := by
+    rw [← hout]; exact mem_outk.2 ht
+  have := (hmem t).1 (List.mem_of_mem_take h1)
+  exact ⟨this.1, this.2.2⟩
+
+/-- "lies inside the window", in full: if the key's entry matches and lies inside the
+`[notBefore, notAfter]` window (as every entry produced by a `Bump` does, `bump_entry_in_window`;
+in particular under `EntryOK`), so does every time requested in the tick -/
+theorem fired_in_window {w : Worker} {now cap : Int} {flushLimit fuel : Nat}
+    (hInv : Heap.Inv w.heap) (hL : ListerOK w.lister) (hchan : w.chan = [])
+    (hdone : (work w now cap flushLimit fuel).2.2 = true)
+    {k : String} {jc : JC} (hlk : lookup w.lister k = some jc)
+    (hen : jc.sched.enabled = true) (hpe : jc.sched.parseErr = false)
+    {e lo : Int} (he : Heap.search w.heap k = some e) (hE : EntryOK jc lo e) :
+    ∀ t, (k, t) ∈ (work w now cap flushLimit fuel).2.1 →
+      jc.M t ∧ (∀ nbf, jc.sched.notBefore = some nbf → nbf ≤ t) ∧
+      (∀ naf, jc.sched.notAfter = some naf → t ≤ naf) ∧ t * 1000000000 ≤ now := by
+  intro t ht
+  have h1 := fired_on_schedule hInv hL hchan hdone hlk hen hpe he t ht
+  have h2 := fired_never_early (cap := cap) (flushLimit := flushLimit) (fuel := fuel)
+    hInv hL hchan k t ht
+  have hM : jc.M' t := by
+    rcases h1.2 with rfl | h
+    · exact hE.1
+    · exact h
+  exact ⟨hM.1, hM.2.1, hM.2.2, h2⟩
+
+/-- non-vacuity: `Ex.wW` (window [12, 35], entry 15): tick at 45 s requests 15, 20, 30 — neither
+the match 10 before the window nor 40 after it -/
+example : Heap.Inv Ex.wW.heap ∧ ListerOK Ex.wW.lister ∧ Ex.wW.chan = [] ∧
+    (work Ex.wW 45000000000 5 1000 10).2 = ([("a", 15), ("a", 20), ("a", 30)], true) ∧
+    Heap.search Ex.wW.heap "a" = some 15 ∧ EntryOK Ex.jcW 5 15 := by
+  refine ⟨Ex.wW_inv, Ex.wW_lister, rfl, by decide, by decide, ?_⟩
+  refine ⟨⟨⟨[15, 30], by simp [Ex.jcW, Ex.jcA], by simp⟩, fun n hn => ?_, fun n hn => ?_⟩,
+    by omega, ?_⟩
+  · cases hn; omega
+  · cases hn; omega
+  · rintro u ⟨⟨l, hl, hu⟩, hnb, _⟩ ⟨h1, h2⟩
+    have := hnb 12 rfl
+    simp only [Ex.jcW, Ex.jcA, List.mem_cons, List.not_mem_nil, or_false] at hl
+    rcases hl with rfl | rfl <;> simp at hu <;> omega
+
+/-- the requests for any key are strictly increasing (in particular: no duplicates) -/
+theorem fired_strictly_increasing {w : Worker} {now cap : Int} {flushLimit fuel : Nat}
+    (hInv : Heap.Inv w.heap) (hL : ListerOK w.lister) (hchan : w.chan = [])
+    (hdone : (work w now cap flushLimit fuel).2.2 = true) (k : String) :
+    SortedStrict (((work w now cap flushLimit fuel).2.1.filter
+      (fun p => p.1 = k)).map (fun p => p.2)) := by
+  show SortedStrict (outk _ k)
+  cases he : Heap.search w.heap k with
+  | none =>
+    rw [(Cron.work_key_absent flushLimit fuel hInv hL hchan he).1]; exact List.Pairwise.nil
+  | some e =>
+    cases hlk : lookup w.lister k with
+    | none =>
+      rw [(Cron.work_key_missing flushLimit fuel hInv hL hchan hdone hlk he).1]
+      exact List.Pairwise.nil
+    | some jc =>
+      by_cases hact : jc.sched.enabled = true ∧ jc.sched.parseErr = false
+      · obtain ⟨hs, _, hout, _⟩ := work_key_stream hInv hL hchan hdone hlk hact.1 hact.2 he
+        have hout' : outk (work w now cap flushLimit fuel).2.1 k
+            = (dueList jc.nextAfter (floorSec now) e).take cap.toNat := hout
+        rw [hout']
+        exact List.Pairwise.sublist (List.take_sublist _ _) hs
+      · rw [(Cron.work_key_inactive flushLimit fuel hInv hL hchan hdone hlk hact he).1]
+        split
+        · exact List.pairwise_singleton _ _
+        · exact List.Pairwise.nil
+
+/-- at most `cap` requests per key and tick (any key, any fuel) -/
+theorem fired_at_most_cap {w : Worker} {now cap : Int} {flushLimit fuel : Nat}
+    (hInv : Heap.Inv w.heap) (hL : ListerOK w.lister) (hchan : w.chan = []) (k : String) :
+    (((work w now cap flushLimit fuel).2.1.filter
+      (fun p => p.1 = k)).map (fun p => p.2)).length ≤ cap.toNat :=
+  work_out_le_cap flushLimit fuel hInv hL hchan k
+
+/-- if the cap is not exceeded, the entry (when due) and every matching in-window time in
+`(e, nowS]` is requested exactly once -/
+theorem fired_complete_when_cap_not_hit {w : Worker} {now cap : Int} {flushLimit fuel : Nat}
+    (hInv : Heap.Inv w.heap) (hL : ListerOK w.lister) (hchan : w.chan = [])
+    (hdone : (work w now cap flushLimit fuel).2.2 = true)
+    {k : String} {jc : JC} (hlk : lookup w.lister k = some jc)
+    (hen : jc.sched.enabled = true) (hpe : jc.sched.parseErr = false)
+    {e : Int} (he : Heap.search w.heap k = some e)
+    (hcap : (dueList jc.nextAfter (floorSec now) e).length ≤ cap.toNat) :
+    ∀ m, e ≤ m → m ≤ floorSec now → (m = e ∨ jc.M' m) →
+      (((work w now cap flushLimit fuel).2.1.filter
+        (fun p => p.1 = k)).map (fun p => p.2)).count m = 1 := by
+  intro m h1 h2 h3
+  obtain ⟨hs, hmem, hout, _⟩ := work_key_stream hInv hL hchan hdone hlk hen hpe he
+  rw [hout, List.take_of_length_le hcap]
+  have hin : m ∈ dueList jc.nextAfter (floorSec now) e := (hmem m).2 ⟨h1, h2, h3⟩
+  have hnd : (dueList jc.nextAfter (floorSec now) e).Nodup :=
+    List.Pairwise.imp (fun h => by omega) hs
+  have hle := List.nodup_iff_count.1 hnd m
+  have hpos := List.count_pos_iff.2 hin
+  omega
+
+/-- non-vacuity of the cap hypothesis for `Ex.w0`: three times are due, cap 5 -/
+example : (dueList Ex.jcA.nextAfter (floorSec 25500000000) 10) = [10, 15, 20] := by decide
+
+/-! ## 3. termination, and the livelock of the pre-fix loop -/
+
+/-- The pop loop exits by itself (every `Pop` uses the tick's `now`; no assumption on any clock):
+any fuel above the potential
+`totalPot = Σ_{k in heap} keyPot k` suffices, where `keyPot k` is the number of due times
+`(dueList …).length` of a well-formed key, and 1 (if due) for a key that will be dropped. -/
+theorem work_terminates {w : Worker} {now cap : Int} {flushLimit fuel : Nat}
+    (hInv : Heap.Inv w.heap) (hL : ListerOK w.lister) (hchan : w.chan = [])
+    (hfuel : totalPot w.lister (floorSec now) (heapKeys w.heap) w.heap < fuel) :
+    (work w now cap flushLimit fuel).2.2 = true := by
+  rw [work_eq w now cap flushLimit fuel hchan]
+  exact workLoop_terminates hL (heapKeys w.heap) fuel w.heap [] [] hInv
+    (fun k p hk => heap_extra_keys_cover hInv hk) hfuel
+
+example : Heap.Inv Ex.w0.heap ∧ ListerOK Ex.w0.lister ∧ Ex.w0.chan = [] ∧
+    totalPot Ex.w0.lister (floorSec 25500000000) (heapKeys Ex.w0.heap) Ex.w0.heap = 3 :=
+  ⟨Ex.w0_inv, Ex.w0_lister, rfl, by decide⟩
+
+theorem work_terminates_exists {w : Worker} {now cap : Int} {flushLimit : Nat}
+    (hInv : Heap.Inv w.heap) (hL : ListerOK w.lister) (hchan : w.chan = []) :
+    ∃ fuel, (work w now cap flushLimit fuel).2.2 = true :=
+  ⟨_, work_terminates hInv hL hchan (Nat.lt_succ_self _)⟩
+
+/-- Witness of the repaired defect F7, on the pre-fix loop `workLoopDrifting` (the i-th `Pop`
+read the clock again while the cap-bump used the tick's `now`).  One JobConfig matching every
+second, cap 1, clock advancing 1 s per pop: after the single allowed request the loop keeps
+popping and re-bumping the key to `Next(now)`, which the moving clock has already passed — fuel 50
+is exhausted (`done = false`) with exactly `cap` = 1 request. -/
+theorem work_livelock_witness : (workLoopDrifting Ex.wEvery.lister 1000000000
+      (fun i => 1000000000 + i * 1000000000) 1 50 0 Ex.wEvery.heap [] []).2
+    = ([("e", 1)], false) := by decide
+
+/-- the fixed loop on the same worker exits by itself after the one request -/
+example : (workLoop Ex.wEvery.lister 1000000000 1 50 Ex.wEvery.heap [] []).2
+    = ([("e", 1)], true) := by decide
+
+/-! ## 5. several ticks -/
+
+/-- A tick keeps the entry "first matching time after a reference": the reference moves to the
+last requested time, or to `nowS` when the cap was exceeded; it stays put when nothing was due.
+If there is no entry afterwards, no matching in-window time lies after the reference. -/
+theorem work_preserves_entryOK {w : Worker} {now cap : Int} {flushLimit fuel : Nat}
+    (hInv : Heap.Inv w.heap) (hL : ListerOK w.lister) (hchan : w.chan = [])
+    (hdone : (work w now cap flushLimit fuel).2.2 = true)
+    {k : String} {jc : JC} (hlk : lookup w.lister k = some jc)
+    (hen : jc.sched.enabled = true) (hpe : jc.sched.parseErr = false)
+    {e lo : Int} (he : Heap.search w.heap k = some e) (hE : EntryOK jc lo e) :
+    let L := dueList jc.nextAfter (floorSec now) e
+    let ref := match L.getLast? with
+      | none => lo
+      | some lf => if L.length ≤ cap.toNat then lf else floorSec now
+    let ent' := Heap.search (work w now cap flushLimit fuel).1.heap k
+    lo ≤ ref ∧ (∀ e', ent' = some e' → EntryOK jc ref e') ∧
+    (ent' = none → ∀ u, jc.M' u → u ≤ ref) := by
+  intro L ref ent'
+  have hs := (lookup_ok hL hlk).2
+  have hsp := JC.nextAfter_spec hs
+  obtain ⟨_, h2, h3⟩ := work_key_stream_lemma flushLimit fuel hInv hL hchan hdone hlk ⟨hen, hpe⟩ he
+  cases hl : L.getLast? with
+  | none =>
+    have hnil : L = [] := List.getLast?_eq_none_iff.1 hl
+    have hent : ent' = some e := by
+      have := h2 (by show L.length ≤ _; rw [hnil]; exact Nat.zero_le _)
+      show Heap.search _ k = some e
+      rw [this]
+      show (match L.getLast? with | none => some e | some lf => jc.nextAfter lf) = _
+      rw [hl]
+    have href : ref = lo := by show (match L.getLast? with | none => lo | some lf => _) = lo; rw [hl]
+    rw [href, hent]
+    exact ⟨Int.le_refl _, fun e' he' => by cases he'; exact hE, fun h => by cases h⟩
+  | some lf =>
+    have hlast := dueList_getLast_max hsp _ _ _ hl
+    by_cases hle : L.length ≤ cap.toNat
+    · have href : ref = lf := by
+        show (match L.getLast? with | none => lo | some lf => if L.length ≤ cap.toNat then lf else _) = lf
+        rw [hl]; simp [hle]
+      have hent : ent' = jc.nextAfter lf := by
+        show Heap.search _ k = _
+        rw [h2 hle]
+        show (match L.getLast? with | none => some e | some lf => jc.nextAfter lf) = _
+        rw [hl]
+      rw [href, hent]
+      exact ⟨by have := hE.2.1; omega, nextAt_entryOK (hsp lf)⟩
+    · have href : ref = floorSec now := by
+        show (match L.getLast? with | none => lo | some lf => if L.length ≤ cap.toNat then lf else _) = _
+        rw [hl]; simp [hle]
+      have hent : ent' = jc.nextAfter (floorSec now) := h3 (by show cap.toNat < L.length; omega)
+      rw [href, hent]
+      exact ⟨by have := hE.2.1; omega, nextAt_entryOK (hsp _)⟩
+
+/-- non-vacuity: entry 10 of `Ex.w0` is the first match of `Ex.jcA` after 0 -/
+example : EntryOK Ex.jcA 0 10 := by
+  refine ⟨⟨⟨[10, 20, 30, 40], by simp [Ex.jcA], by simp⟩, fun n hn => ?_, fun n hn => ?_⟩,
+    by omega, ?_⟩
+  · cases hn
+  · cases hn; omega
+  · rintro u ⟨⟨l, hl, hu⟩, _⟩ ⟨h1, h2⟩
+    simp only [Ex.jcA, List.mem_cons, List.not_mem_nil, or_false] at hl
+    rcases hl with rfl | rfl <;> simp at hu <;> omega
+
+/-- the requests for a well-formed key over a run of non-decreasing ticks are strictly
+increasing -/
+theorem run_in_order {w : Worker} {cap : Int} {flushLimit fuel : Nat}
+    (hInv : Heap.Inv w.heap) (hL : ListerOK w.lister) (hchan : w.chan = [])
+    {k : String} {jc : JC} (hlk : lookup w.lister k = some jc)
+    (hen : jc.sched.enabled = true) (hpe : jc.sched.parseErr = false)
+    {e0 : Int} (he : Heap.search w.heap k = some e0)
+    (ts : List Int) (hts : List.Pairwise (· ≤ ·) ts)
+    (hdone : (runTicks cap flushLimit fuel w ts).2.2 = true) :
+    SortedStrict (((runTicks cap flushLimit fuel w ts).2.1.flatten.filter
+      (fun p => p.1 = k)).map (fun p => p.2)) :=
+  (run_stream_inv cap flushLimit fuel hInv hL hchan hlk ⟨hen, hpe⟩ he ts hts hdone).2.1.sorted
+
+/-- every request of the run is the initial entry or a matching in-window time after it, and
+is made exactly once -/
+theorem run_exactly_once {w : Worker} {cap : Int} {flushLimit fuel : Nat}
+    (hInv : Heap.Inv w.heap) (hL : ListerOK w.lister) (hchan : w.chan = [])
+    {k : String} {jc : JC} (hlk : lookup w.lister k = some jc)
+    (hen : jc.sched.enabled = true) (hpe : jc.sched.parseErr = false)
+    {e0 : Int} (he : Heap.search w.heap k = some e0)
+    (ts : List Int) (hts : List.Pairwise (· ≤ ·) ts)
+    (hdone : (runTicks cap flushLimit fuel w ts).2.2 = true) :
+    ∀ t, (k, t) ∈ (runTicks cap flushLimit fuel w ts).2.1.flatten →
+      e0 ≤ t ∧ (t = e0 ∨ jc.M' t) ∧
+      (((runTicks cap flushLimit fuel w ts).2.1.flatten.filter
+        (fun p => p.1 = k)).map (fun p => p.2)).count t = 1 := by
+  intro t ht
+  have hr := (run_stream_inv cap flushLimit fuel hInv hL hchan hlk ⟨hen, hpe⟩ he ts hts hdone).2.1
+  have hmem : t ∈ outk (runTicks cap flushLimit fuel w ts).2.1.flatten k := mem_outk.2 ht
+  have hs := hr.sound t hmem
+  refine ⟨hs.1, hs.2.2, ?_⟩
+  have hnd : (outk (runTicks cap flushLimit fuel w ts).2.1.flatten k).Nodup :=
+    List.Pairwise.imp (fun h => by omega) hr.sorted
+  have hle := List.nodup_iff_count.1 hnd t
+  have hpos := List.count_pos_iff.2 hmem
+  show (outk _ k).count t = 1
+  omega
+
+/-- over a whole run: if the initial entry matches and lies inside the window (e.g. `EntryOK`),
+every requested time matches and lies inside `[notBefore, notAfter]` -/
+theorem run_in_window {w : Worker} {cap : Int} {flushLimit fuel : Nat}
+    (hInv : Heap.Inv w.heap) (hL : ListerOK w.lister) (hchan : w.chan = [])
+    {k : String} {jc : JC} (hlk : lookup w.lister k = some jc)
+    (hen : jc.sched.enabled = true) (hpe : jc.sched.parseErr = false)
+    {e0 lo : Int} (he : Heap.search w.heap k = some e0) (hE : EntryOK jc lo e0)
+    (ts : List Int) (hts : List.Pairwise (· ≤ ·) ts)
+    (hdone : (runTicks cap flushLimit fuel w ts).2.2 = true) :
+    ∀ t, (k, t) ∈ (runTicks cap flushLimit fuel w ts).2.1.flatten →
+      jc.M t ∧ (∀ nbf, jc.sched.notBefore = some nbf → nbf ≤ t) ∧
+      (∀ naf, jc.sched.notAfter = some naf → t ≤ naf) := by
+  intro t ht
+  have h := run_exactly_once hInv hL hchan hlk hen hpe he ts hts hdone t ht
+  have hM : jc.M' t := by
+    rcases h.2.1 with rfl | h'
+    · exact hE.1
+    · exact h'
+  exact hM
+
+/-- nothing is requested before the clock reading of its own tick (all keys, any fuel) -/
+theorem run_never_early {w : Worker} {cap : Int} {flushLimit fuel : Nat}
+    (hInv : Heap.Inv w.heap) (hL : ListerOK w.lister) (hchan : w.chan = []) (ts : List Int) :
+    ∀ p ∈ List.zip ts (runTicks cap flushLimit fuel w ts).2.1,
+      ∀ q ∈ p.2, q.2 * 1000000000 ≤ p.1 :=
+  runTicks_arrived cap flushLimit fuel ts w hInv hL hchan
+
+/-- if no tick exceeds the cap for `k`, the requests are exactly the initial entry and the
+matching in-window times after it up to the last tick's second — each exactly once
+(`run_exactly_once`), in order (`run_in_order`) -/
+theorem run_complete {w : Worker} {cap : Int} {flushLimit fuel : Nat}
+    (hInv : Heap.Inv w.heap) (hL : ListerOK w.lister) (hchan : w.chan = [])
+    {k : String} {jc : JC} (hlk : lookup w.lister k = some jc)
+    (hen : jc.sched.enabled = true) (hpe : jc.sched.parseErr = false)
+    {e0 : Int} (he : Heap.search w.heap k = some e0)
+    (ts : List Int) (hts : List.Pairwise (· ≤ ·) ts)
+    (hdone : (runTicks cap flushLimit fuel w ts).2.2 = true)
+    (hno : NoCapHit jc.nextAfter cap.toNat (some e0) (ts.map floorSec))
+    {nl : Int} (hlast : ts.getLast? = some nl) :
+    ∀ t, (k, t) ∈ (runTicks cap flushLimit fuel w ts).2.1.flatten ↔
+      e0 ≤ t ∧ t ≤ floorSec nl ∧ (t = e0 ∨ jc.M' t) := by
+  intro t
+  have hr := run_stream_inv cap flushLimit fuel hInv hL hchan hlk ⟨hen, hpe⟩ he ts hts hdone
+  have hhz : (ts.map floorSec).getLast?.getD (e0 - 1) = floorSec nl := by
+    rw [List.getLast?_map, hlast]; rfl
+  rw [hhz] at hr
+  rw [← mem_outk]
+  exact ⟨fun h => hr.2.1.sound t h, fun h => hr.2.2 hno t h.1 h.2.1 h.2.2⟩
+
+/-- observable sufficient condition for `NoCapHit`: every tick made fewer than `cap` requests
+for the key -/
+theorem noCapHit_of_fewer_than_cap {w : Worker} {cap : Int} {flushLimit fuel : Nat}
+    (hInv : Heap.Inv w.heap) (hL : ListerOK w.lister) (hchan : w.chan = [])
+    {k : String} {jc : JC} (hlk : lookup w.lister k = some jc)
+    (hen : jc.sched.enabled = true) (hpe : jc.sched.parseErr = false)
+    {e0 : Int} (he : Heap.search w.heap k = some e0) (ts : List Int)
+    (hdone : (runTicks cap flushLimit fuel w ts).2.2 = true)
+    (hlt : ∀ l ∈ (runTicks cap flushLimit fuel w ts).2.1,
+      ((l.filter (fun p => p.1 = k)).map (fun p => p.2)).length < cap.toNat) :
+    NoCapHit jc.nextAfter cap.toNat (some e0) (ts.map floorSec) := by
+  have hk := (runTicks_key cap flushLimit fuel (k := k) ⟨hen, hpe⟩ ts w hInv hL hchan hlk hdone).1
+  rw [he] at hk
+  apply noCapHit_of_lt
+  intro l hl
+  rw [← hk] at hl
+  obtain ⟨l', hl', rfl⟩ := List.mem_map.1 hl
+  exact hlt l' hl'
+
+/-- the entry after the run: the first matching in-window time after the last tick's second
+(none iff there is none) once the initial entry has arrived; the untouched initial entry before -/
+theorem run_entry {w : Worker} {cap : Int} {flushLimit fuel : Nat}
+    (hInv : Heap.Inv w.heap) (hL : ListerOK w.lister) (hchan : w.chan = [])
+    {k : String} {jc : JC} (hlk : lookup w.lister k = some jc)
+    (hen : jc.sched.enabled = true) (hpe : jc.sched.parseErr = false)
+    {e0 : Int} (he : Heap.search w.heap k = some e0)
+    (ts : List Int) (hts : List.Pairwise (· ≤ ·) ts)
+    (hdone : (runTicks cap flushLimit fuel w ts).2.2 = true)
+    {nl : Int} (hlast : ts.getLast? = some nl) :
+    (floorSec nl < e0 →
+      Heap.search (runTicks cap flushLimit fuel w ts).1.heap k = some e0) ∧
+    (e0 ≤ floorSec nl →
+      NextAt jc.M' (floorSec nl) (Heap.search (runTicks cap flushLimit fuel w ts).1.heap k)) := by
+  have hr := run_stream_inv cap flushLimit fuel hInv hL hchan hlk ⟨hen, hpe⟩ he ts hts hdone
+  have hhz : (ts.map floorSec).getLast?.getD (e0 - 1) = floorSec nl := by
+    rw [List.getLast?_map, hlast]; rfl
+  rw [hhz] at hr
+  refine ⟨fun h => ?_, fun h => ?_⟩
+  · rcases hr.2.1.phase with ⟨_, h2⟩ | ⟨h1, _⟩
+    · exact h2
+    · omega
+  · rcases hr.2.1.phase with ⟨h1, _⟩ | ⟨_, h2⟩
+    · omega
+    · exact h2
+
+/-- non-vacuity of the run theorems: `Ex.w0`, ticks at 12, 25.5, 41 s, cap 5 (never reached) -/
+example : Heap.Inv Ex.w0.heap ∧ ListerOK Ex.w0.lister ∧ Ex.w0.chan = [] ∧
+    lookup Ex.w0.lister "a" = some Ex.jcA ∧ Heap.search Ex.w0.heap "a" = some 10 ∧
+    List.Pairwise (· ≤ ·) [12000000000, 25500000000, (41000000000 : Int)] ∧
+    (runTicks 5 1000 10 Ex.w0 [12000000000, 25500000000, 41000000000]).2
+      = ([[("a", 10)], [("a", 15), ("a", 20)], [("a", 30), ("a", 40)]], true) ∧
+    (∀ l ∈ (runTicks 5 1000 10 Ex.w0 [12000000000, 25500000000, 41000000000]).2.1,
+      ((l.filter (fun p => p.1 = "a")).map (fun p => p.2)).length < (5 : Int).toNat) :=
+  ⟨Ex.w0_inv, Ex.w0_lister, rfl, by simp [lookup, Ex.w0], by decide, by decide, by decide,
+    by decide⟩
+
+end Furiko.Cron.C01
